@@ -358,13 +358,34 @@ Proof.
   apply flag_valid_iff. exact V.
 Qed.
 
-Theorem byte_update_reconstructs old serve srv tf fl0 st :
+Definition old_abs (old : option (header * bytes)) : option U.oldfile :=
+  match old with Some (sh, sf) => Some (abs_old sh sf) | None => None end.
+
+(** the chunks the run has to fetch: [Update.needed] on the abstraction of the target as it
+    is after the header fetch *)
+Definition needed_of (old : option (header * bytes)) (tf : bytes) (fl0 : list Z) : list nat :=
+  U.needed Hc (old_abs old) true 0 (abs_slots doff cs fb (W.file_write tf 0 fetch_bytes) fl0).
+
+Lemma finish_events Bx hdr sl ev : U.o_events (U.finish Hc Hf Bx hdr sl ev) = ev.
+Proof. unfold U.finish. destruct (U.validate_data Hc Hf Bx sl) as [ok sl']. reflexivity. Qed.
+
+Lemma missing_idx_eqv : forall sl sl' i, E.eqv sl sl' -> UP.missing_idx i sl = UP.missing_idx i sl'.
+Proof.
+  induction sl as [|s sl IH]; intros sl' i Ev; inversion Ev; subst; [reflexivity|].
+  cbn [UP.missing_idx]. rewrite (E.is_missing_eqv s y H2). rewrite (IH l' (S i) H4). reflexivity.
+Qed.
+
+(** the composed theorem with the requests: the served requests are exactly [needed_of], in
+    file order, each chunk once; every request (also a refused one) asks only for such chunks *)
+Theorem byte_update_full old serve srv tf fl0 st :
   old_ok old -> 1 <= srv -> serves_B serve ->
   UP.collision Hc \/
   exists fl' ev, byte_update old serve srv tf fl0 st = Some (BFinish, fl', fb, ev) /\
-                 (forall i c, nth_error cs i = Some c -> nth i fl' 0%Z = 1%Z).
+                 (forall i c, nth_error cs i = Some c -> nth i fl' 0%Z = 1%Z) /\
+                 U.served_chunks ev = needed_of old tf fl0 /\
+                 (forall i, In i (U.asked_chunks ev) -> In i (needed_of old tf fl0)).
 Proof.
-  intros Ho Hsrv Sv. unfold byte_update.
+  intros Ho Hsrv Sv. unfold byte_update, needed_of.
   set (tf1 := W.file_write tf 0 fetch_bytes).
   destruct (fetched_file tf) as [L1 [Hh1 W1]]. fold tf1 in L1, Hh1, W1.
   destruct (validate_checksums_full H h tf1 fl0 st W1 Det) as [ch Er]. rewrite Er. cbn [s_ret s_flags].
@@ -381,9 +402,11 @@ Proof.
     pose proof (absr_abs_eqv cs doff fb [] cs fl1 tf1 eq_refl b_compl In1) as Ea. cbn [length] in Ea. fold sl1 in Ea.
     pose proof (E.eqv_all_valid sl1 _ (E.eqv_sym _ _ Ea) A1) as Es.
     destruct (UP.good_eq_or_collision Hc Hf sl1 G1 A1) as [Ec|C]; [|left; exact C].
-    right. exists fl1, []. split.
+    right. exists fl1, []. split; [|split].
     + rewrite Es in Ec. unfold total. rewrite (final_file cs doff fb St0 Lb _ fl1 tf1 Hh1 Ec). reflexivity.
     + apply (all_ones fl1 tf1). exact A1.
+    + destruct (UP.find_valid_true Hc Hf Bn sl0 sl1 FV) as [E0 A0]. rewrite E0 in A0.
+      fold sl0. rewrite (UP.needed_all_valid Hc (old_abs old) sl0 true 0 A0). cbn. split; [reflexivity|intros i []].
   - (* something is missing *)
     assert (WfB : UP.wf_new Hc Hf Bn sl0).
     { eapply (UP.wf_new_shape Hc Hf); [|exact Bv]. unfold abs. cbn [U.t_slots]. apply shape_abs_slots. }
@@ -394,7 +417,8 @@ Proof.
       left. exact (UP.find_valid_mismatch_collision Hc Hf Bn sl0 WfB Fi0 AV Ub Md). }
     inversion FV as [E2]. clear FV.
     (* copy from the old file *)
-    assert (exists fl2 tf2 Aopt,
+    set (Aopt := old_abs old).
+    assert (exists fl2 tf2,
               match old with
               | Some (sh, sf) => match copy_chunks H sh sf h tf1 fl1 with
                                  | Some (a, b, _) => (a, b) | None => (fl1, tf1) end
@@ -403,13 +427,13 @@ Proof.
               E.eqv (abs_slots doff cs fb tf2 fl2) (U.copy_chunks Hc Aopt sl1) /\
               (forall x, x < doff -> W.fget tf2 x = W.fget fb x) /\
               inside doff cs fl2 tf2 /\ length fl2 = length cs /\ Forall norm fl2)
-      as [fl2 [tf2 [Aopt [Em [Ecp [Hh2 [In2 [Len2 Nm2]]]]]]]].
+      as [fl2 [tf2 [Em [Ecp [Hh2 [In2 [Len2 Nm2]]]]]]].
     { destruct old as [[sh sf]|].
       - destruct Ho as [Ks [Kt [Ss Sc]]].
         destruct (BC.link_copy_eqv H sh sf h fb tf1 fl1 Ks Kt Ss Szd St0 Sc) as [fl2 [tf2 [Ec [Ev [_ [_ Fi2]]]]]].
         { intros i c Hn Hv. destruct (In1 i c Hn Hv) as [Z|Cm]; [left; exact Z|right]. unfold ext_lo. fold doff. exact Cm. }
         { exact L1. }
-        exists fl2, tf2, (Some (abs_old sh sf)). rewrite Ec.
+        exists fl2, tf2. rewrite Ec. unfold Aopt. cbn [old_abs].
         destruct (copy_chunks_sound H sh sf h tf1 fl1 fl2 tf2 sf Ks Kt St0 Ec) as [_ [Lf [_ [Hb [_ Cp]]]]].
         split; [reflexivity|]. split; [exact Ev|].
         split; [intros x Hx; rewrite (Hb x Hx); apply Hh1; exact Hx|].
@@ -419,7 +443,7 @@ Proof.
         destruct (nth_error cs i) as [tc|] eqn:Hn; [|apply nth_error_None in Hn; lia].
         destruct (Cp i tc Hn) as [_ [_ [Hv _]]]. pose proof (norm_nth fl1 i Nm1) as N1. unfold norm in *.
         destruct Hv as [->|[->| ->]]; auto.
-      - exists fl1, tf1, None. split; [reflexivity|]. split; [apply E.eqv_refl|].
+      - exists fl1, tf1. unfold Aopt. cbn [old_abs U.copy_chunks]. split; [reflexivity|]. split; [apply E.eqv_refl|].
         split; [exact Hh1|]. split; [exact In1|]. split; [exact Len1 | exact Nm1]. }
     rewrite Em. clear Em.
     set (fl3 := reset_flags fl2).
@@ -447,23 +471,41 @@ Proof.
                 ltac:(intros a Ea La; rewrite Em in Ea; inversion Ea; subst; exact La)
                 ltac:(unfold fuel, U.missing_count; pose proof (UP.filter_len_le U.is_missing sa);
                       unfold sa in *; rewrite absr_length, wtab_length in *; lia))
-      as [[_ [_ Nz]] | [sl_end [ev' [R1 _]]]]; [elim Nz; exact ZVa|].
+      as [[_ [_ Nz]] | [sl_end [ev' [R1 [_ [_ [_ R5]]]]]]]; [elim Nz; exact ZVa|].
+    destruct (R5 ZVa) as [R6 R7].
     fold sa in Sim.
     destruct (byte_loop Hw doff serve srv fuel m 0 (wtab cs fl3) tf2 []) as [[[stt tab'] f'] ev2].
     cbv zeta in Sim. destruct Sim as [[fl' Et] [Hh3 Sm]].
     destruct (finish_status Bn (firstn (N.to_nat doff) tf2) sl_end ([] ++ ev')) as [e Fe].
     rewrite <- R1 in Fe.
     destruct stt; try (pose proof (eq_trans (eq_sym Sm) Fe) as X; discriminate X); [|contradiction].
-    destruct Sm as [_ [Gf [NFf Mc]]]. subst tab'.
+    destruct Sm as [Sm0 [Gf [NFf Mc]]]. subst tab'.
     assert (Vf : Forall (fun s => U.s_flag s = U.Valid) (LP.absr ul doff fb 0 (wtab cs fl') f')).
     { apply UP.no_missing_all_valid; [exact NFf|]. exact (eq_trans (mcount_abs cs doff fb f' (wtab cs fl') 0) Mc). }
     destruct (UP.good_eq_or_collision Hc Hf _ Gf Vf) as [Ec|C]; [|left; exact C].
-    right. exists (fl_of (wtab cs fl')), ev2. split.
+    assert (Eev : ev2 = ev').
+    { pose proof (eq_trans (eq_sym Sm0) R1) as X1. apply (f_equal U.o_events) in X1.
+      rewrite !finish_events in X1. exact X1. }
+    assert (Emi : UP.missing_idx 0 sa = U.needed Hc Aopt true 0 sl0).
+    { rewrite (missing_idx_eqv sa sl2 0 Esa). unfold sl2. rewrite <- E2. apply UP.missing_after_copy. }
+    right. exists (fl_of (wtab cs fl')), ev2. split; [|split; [|split]].
     + unfold total. rewrite (final_file cs doff fb St0 Lb ul fl' f'); [reflexivity| |exact Ec].
       intros x Hx. rewrite (Hh3 x Hx). apply Hh2. exact Hx.
     + intros i c Hn. destruct (nth_absr_cs cs doff fb ul fl' f' i c Hn) as [s [Hs [_ [_ Fs]]]].
       rewrite Forall_forall in Vf. specialize (Vf s (nth_error_In _ _ Hs)). rewrite Fs in Vf.
       apply flag_valid_iff in Vf. rewrite nth_fl_of, nth_wtab, Hn. cbn [option_map W.c_valid]. rewrite Vf. reflexivity.
+    + rewrite Eev, R6. exact Emi.
+    + intros i Hi. rewrite Eev in Hi. rewrite <- Emi. apply R7. exact Hi.
+Qed.
+
+Theorem byte_update_reconstructs old serve srv tf fl0 st :
+  old_ok old -> 1 <= srv -> serves_B serve ->
+  UP.collision Hc \/
+  exists fl' ev, byte_update old serve srv tf fl0 st = Some (BFinish, fl', fb, ev) /\
+                 (forall i c, nth_error cs i = Some c -> nth i fl' 0%Z = 1%Z).
+Proof.
+  intros Ho Hs Sv. destruct (byte_update_full old serve srv tf fl0 st Ho Hs Sv) as [C|[fl' [ev [E1 [E2 _]]]]];
+    [left; exact C | right; eauto].
 Qed.
 
 End Run.
